@@ -397,6 +397,15 @@ def run(R):
         for turn, (u, apw, ppw) in enumerate(turns):
             one_world(R, level, "equallen", turn, apw, ppw, eng, ops=("get", "set"), user=u, pad=2)
             R.mon["exchanges_of_users_with_equally_long_passwords"] += 1
+    # (j) pass-phrases are octet strings: surrounding white-space, NUL and high octets are
+    # part of them (RFC 3414 A.2 hashes them as they are)
+    for level in levels4:
+        for j, (apw, ppw) in enumerate(((b" leading-space", b"trailing-space "), (b"tab-and-newline\t\n", b"\r\ncrlf-first"), (b"\x00nul-first", b"nul-last\x00"), (b"high\xff", b"  two  spaces  "))):
+            k += 1
+            if not R.mine(k):
+                continue
+            one_world(R, level, "edgepw", j, apw, ppw, ops=("get", "set"), pad=1)
+            R.mon["exchanges_with_whitespace_or_nul_in_passphrases"] += 1
     # (e) one client object used as another user first (other hash / other level)
     for level in levels4:
         for prev in rig.V3_LEVELS:
